@@ -164,6 +164,16 @@ pub fn begin(mode: &PivotMode, prefix: &[u32]) {
     });
 }
 
+/// Leaves exploration mode after a case body was abandoned by a panic.
+pub fn abort() {
+    SCRIPT.with(|s| {
+        let mut s = s.borrow_mut();
+        s.active = false;
+        s.rec.clear();
+        s.error = None;
+    });
+}
+
 pub fn end() -> (Vec<Point>, Option<String>) {
     SCRIPT.with(|s| {
         let mut s = s.borrow_mut();
